@@ -22,10 +22,10 @@ opaque!(BusListener);
 //@item core/src/message/abort_function_call.rs struct AbortFunctionCall
 
 // protocol minor version that introduced each message kind sent by these handlers (0 = base protocol 1.14)
-impl IntoMessage for CallFunction { open spec fn min_minor() -> u32 { 0 } }
-impl IntoMessage for CallFunction2 { open spec fn min_minor() -> u32 { 19 } }
-impl IntoMessage for CallFunctionReply { open spec fn min_minor() -> u32 { 0 } }
-impl IntoMessage for AbortFunctionCall { open spec fn min_minor() -> u32 { 16 } }
+impl IntoMessage for CallFunction { open spec fn min_minor() -> u32 { 0 } open spec fn allowed_for(&self, receiver: &ConnectionState) -> bool { true } }
+impl IntoMessage for CallFunction2 { open spec fn min_minor() -> u32 { 19 } open spec fn allowed_for(&self, receiver: &ConnectionState) -> bool { true } }
+impl IntoMessage for CallFunctionReply { open spec fn min_minor() -> u32 { 0 } open spec fn allowed_for(&self, receiver: &ConnectionState) -> bool { true } }
+impl IntoMessage for AbortFunctionCall { open spec fn min_minor() -> u32 { 16 } open spec fn allowed_for(&self, receiver: &ConnectionState) -> bool { true } }
 
 //@include _shared/registry_preamble_b.rs
 impl Broker {
